@@ -6,7 +6,7 @@ from concurrent.futures import ThreadPoolExecutor
 def main():
     files = sys.argv[1].split(",")
     want = sys.argv[2:]
-    scratch = os.path.join(gen.VERIF, ".cache", "scratch", "_dev")
+    scratch = os.path.join(gen.VERIF, ".cache", "scratch", os.environ.get("KDEV_TAG", "_dev"))
     paths = []
     for f in files:
         paths.append(f if os.path.isabs(f) else os.path.join(gen.VERIF, "harness", f))
@@ -16,8 +16,8 @@ def main():
             p = os.path.join(gen.VERIF, "harness", m.group(1))
             if p not in paths: paths.append(p)
     gen.make_scratch(scratch, paths)
-    tdir = os.path.join(gen.VERIF, ".cache", "kani", "_dev")
-    logdir = os.path.join(gen.VERIF, ".cache", "logs", "_dev")
+    tdir = os.path.join(gen.VERIF, ".cache", "kani", os.environ.get("KDEV_TAG", "_dev"))
+    logdir = os.path.join(gen.VERIF, ".cache", "logs", os.environ.get("KDEV_TAG", "_dev"))
     os.makedirs(logdir, exist_ok=True)
     rc, dt = kani.codegen(scratch, tdir, os.path.join(logdir, "_codegen.log"))
     print("codegen rc=%d %.0fs" % (rc, dt))
